@@ -10,7 +10,7 @@ from automata.fa.nfa import NFA
 RULE = ("random pairs of valid NFAs over a common alphabet (1-5 states, epsilon edges/cycles, nondeterminism) plus pairs "
         "built to be equivalent (an NFA vs its epsilon-eliminated form, vs the NFA view of its determinisation, vs its "
         "double reversal) and near-equivalent (one final flag flipped), and ultimately periodic 'lasso' pairs (periods 2 vs 3, a cycle vs its unrolling, one flag changed); ==, != in both argument orders compared with "
-        "the proved comparator; additionally == is compared with DFA equality of the determinisations. distinct = "
+        "the proved comparator and, for ==, with the mirror model of the code's Hopcroft-Karp/union-find loop over subset states (two symbol orders and tie-breaks, both argument orders); additionally == is compared with DFA equality of the determinisations. distinct = "
         "canonical pair; non-trivial = both languages non-empty and the operands are not literally identical")
 
 
@@ -23,8 +23,9 @@ def variants(rng, n):
 def check_pair(ctx, a, b, tag, defs=None):
     sy = enc.SymMap(a.input_symbols | b.input_symbols)
     ta, tb = enc.enc_nfa(a, None, sy), enc.enc_nfa(b, None, sy)
-    ans = ctx.driver.batch([(7, 5, enc.tree([ta, tb]))])[0]
+    ans, hk = ctx.driver.batch([(7, 5, enc.tree([ta, tb])), (7, 6, enc.tree([ta, tb]))])
     m_eq, m_ne, m_eq_rev, diff = (enc.dec_res(x) for x in ans)
+    hk_eq, hk_eq_alt, hk_eq_rev = (enc.dec_res(x) for x in hk)
     got = {"eq": outcome(lambda: a == b), "ne": outcome(lambda: a != b),
            "eq_rev": outcome(lambda: b == a), "ne_rev": outcome(lambda: b != a)}
     problems = []
@@ -35,6 +36,14 @@ def check_pair(ctx, a, b, tag, defs=None):
     for k, exp in (("eq", want), ("ne", not want), ("eq_rev", want), ("ne_rev", not want)):
         if got[k][:2] != ("ok", exp):
             problems.append(f"{k}: impl {got[k]} expected {exp}")
+    # == against the mirror model of NFA.__eq__ (Hopcroft-Karp as coded)
+    for k, sched, m in (("eq", "record order, first root wins ties", hk_eq),
+                        ("eq", "reversed order, second root wins ties", hk_eq_alt),
+                        ("eq_rev", "operands swapped", hk_eq_rev)):
+        mw = ("ok", m[1] == 1) if m[0] == "ok" else ("err", m[1])
+        if got[k][:2] != mw:
+            problems.append(f"{k}: impl {got[k]} Hopcroft-Karp mirror model ({sched}) {mw}")
+    ctx.tally("hk_mirror_compared")
     da, db = DFA.from_nfa(a), DFA.from_nfa(b)
     if got["eq"][0] == "ok" and (da == db) != got["eq"][1]:
         problems.append(f"== on the NFAs is {got['eq'][1]} but == on their determinisations is {da == db}")
